@@ -42,6 +42,31 @@ theorem commit_eq (s : Store) (tx : Tx) (time : Nat) :
 
 /-! ## The write loop keeps journal, seq and next; shells only disappear -/
 
+theorem writeOne_env {s s' : Store} {seq : Nat} {i : Id} {x : Staged} (h : writeOne s seq i x = .ok s') :
+    s'.envs = s.envs ∧ s'.envVersion = s.envVersion := by
+  unfold writeOne at h
+  split at h
+  · cases h
+  · split at h
+    · cases h
+    · cases h; exact ⟨rfl, rfl⟩
+
+theorem writeLoop_env (seq : Nat) (s : Store) (m : List (Id × Staged)) (acc : List Change) :
+    (writeLoop seq s m acc).1.envs = s.envs ∧ (writeLoop seq s m acc).1.envVersion = s.envVersion := by
+  induction m generalizing s acc with
+  | nil => exact ⟨rfl, rfl⟩
+  | cons p r ih =>
+      obtain ⟨i, x⟩ := p
+      simp only [writeLoop]
+      split
+      · split
+        · exact ⟨rfl, rfl⟩
+        · rename_i s1 h1
+          have := writeOne_env h1
+          have ih' := ih s1 (acc ++ [changeOf i x])
+          exact ⟨ih'.1.trans this.1, ih'.2.trans this.2⟩
+      · exact ih s acc
+
 theorem writeOne_meta {s s' : Store} {seq : Nat} {i : Id} {x : Staged} (h : writeOne s seq i x = .ok s') :
     s'.journal = s.journal ∧ s'.seq = s.seq ∧ s'.next = s.next := by
   unfold writeOne at h
@@ -191,5 +216,23 @@ theorem exec_seq_journal {s : Store} (hwf : WF s) (st : Stmt) :
         · simp [hinv.txseq]
         · simp only [committedStore, journalEntry, discardUnstaged, discardShells, hinv.txseq]
           rw [hm.1, hinv.journal]
+
+/-- a statement never touches the Schema Environment registry -/
+theorem exec_env {s : Store} (hwf : WF s) (st : Stmt) :
+    (exec s st).1.envs = s.envs ∧ (exec s st).1.envVersion = s.envVersion := by
+  have hinv := planned_inv hwf st
+  rcases exec_cases s st with ⟨e', he, hr⟩ | ⟨he, hc⟩
+  · rw [hr]; exact hinv.env
+  · cases hc with
+    | dry hd' hr => rw [hr]; exact hinv.env
+    | check hd' e' hk hr => rw [hr]; exact hinv.env
+    | write hd' u hk s' w e' hw hr =>
+        have hm := writeLoop_env (planned s st).tx.seq (planned s st).s (planned s st).tx.staged []
+        rw [hw] at hm
+        rw [hr]; exact ⟨hm.1.trans hinv.env.1, hm.2.trans hinv.env.2⟩
+    | done hd' u hk s' w hw hr =>
+        have hm := writeLoop_env (planned s st).tx.seq (planned s st).s (planned s st).tx.staged []
+        rw [hw] at hm
+        rw [hr]; exact ⟨hm.1.trans hinv.env.1, hm.2.trans hinv.env.2⟩
 
 end AndaVerif.Tx
